@@ -1155,7 +1155,7 @@ def recvd_post(c, p):
 
 
 Q(name="e2_streams_received_accounting", props=["C06"], func=r"state\.rs:\d+:1: \d+:18>::received$",
-  pure=[r"is_receiving$"], allowed_panics=r"attempt to|unwrap_failed",
+  pure=[r"is_receiving$"], allowed_panics=r"attempt to|unwrap_failed", release_arith=True,
   functions=["StreamsState::received"], pre=lambda c: "true", post=recvd_post,
   bounds="every stream lookup outcome and every verdict of Recv::ingest (covered by recv_ingest_* obligations): ingest is given the frame's payload length, the connection's data_recvd and OUR advertised local_max_data as they are at that moment; on success data_recvd grows by exactly the new bytes (saturating); on failure the error is returned",
   replay=("streams_received_accounting_native", lambda m: [dict(over=0), dict(over=1)]))
@@ -1467,7 +1467,7 @@ def dsend_post(c, p):
 
 
 Q(name="e2_datagrams_send", props=["C16"], func=r"datagrams\.rs:\d+:1: \d+:19>::send$",
-  pure=[r"Datagrams::max_size$", r"has_send_buffer_space$"], allowed_panics=r"attempt to compute",
+  pure=[r"Datagrams::max_size$", r"has_send_buffer_space$"], allowed_panics=r"attempt to compute", release_arith=True,
   functions=["Datagrams::send"], pre=lambda c: "true", post=dsend_post,
   bounds="every configuration, max_size verdict, datagram length and drop flag: Disabled iff receiving is disabled locally; UnsupportedByPeer iff max_size is None; TooLarge iff length > min(max_size, send buffer size); with drop the queue is trimmed for exactly this length; without drop a full buffer gives Blocked and queues nothing; only then is the datagram queued; make_space_for / has_send_buffer_space: dgram_send_space obligations",
   replay=("dgram_api_native", lambda m: [dict(peer=p_, len_=l, drop=d) for (p_, l) in ((65535, 100), (50, 41), (50, 42), (65535, 2000)) for d in (0, 1)]))
